@@ -6,7 +6,9 @@ package main
 // the joint values, the group of the run).
 
 import (
+	"encoding/binary"
 	"fmt"
+	"io"
 	"math/big"
 	"sort"
 	"strings"
@@ -16,6 +18,7 @@ import (
 	rsess "github.com/bronlabs/bron-crypto/pkg/mpc/session"
 	"github.com/bronlabs/bron-crypto/pkg/mpc/sharing"
 	"github.com/bronlabs/bron-crypto/pkg/proofs/sigma/compiler/fiatshamir"
+	"golang.org/x/crypto/blake2b"
 
 	"verif/harness/internal/drive"
 	dbls "verif/harness/internal/drive/boldyreva"
@@ -49,7 +52,9 @@ type obs struct {
 	Extra   map[string]string
 	dec     map[*drive.Msg]any
 	fields  []field
-	Chunk   int // > 0: the tapes of this run served at most Chunk bytes per Read
+	Derived map[string][]byte                       // values computed from wire fields and public inputs, addressed as "@name" by the field table
+	Flipped func(party sharing.ID, off, n int) *obs // re-run with one segment of one party's tape flipped (nil: not available)
+	Chunk   int                                     // > 0: the tapes of this run served at most Chunk bytes per Read
 }
 
 func (o *obs) decoded(m *drive.Msg) any {
@@ -436,8 +441,22 @@ func runL17() func(int64, map[sharing.ID]string) *obs {
 // ---- OT and VOLE on their own ----------------------------------------------------------
 
 func runOtVole(kind string, xi, l int) func(int64, map[sharing.ID]string) *obs {
-	return func(seed int64, labels map[sharing.ID]string) *obs {
-		res := dotv.RunFull(dotv.Config{Seed: seed, Prop: prop, Labels: labels, Kind: kind, Xi: xi, L: l})
+	var mk func(seed int64, labels map[sharing.ID]string, flip *dotv.Flip) *obs
+	mk = func(seed int64, labels map[sharing.ID]string, flip *dotv.Flip) *obs {
+		o := runOtVoleOnce(kind, xi, l, seed, labels, flip)
+		if flip == nil {
+			o.Flipped = func(party sharing.ID, off, n int) *obs {
+				return mk(seed, labels, &dotv.Flip{Party: party, Off: off, N: n})
+			}
+		}
+		return o
+	}
+	return func(seed int64, labels map[sharing.ID]string) *obs { return mk(seed, labels, nil) }
+}
+
+func runOtVoleOnce(kind string, xi, l int, seed int64, labels map[sharing.ID]string, flip *dotv.Flip) *obs {
+	{
+		res := dotv.RunFull(dotv.Config{Seed: seed, Prop: prop, Labels: labels, Kind: kind, Xi: xi, L: l, Flip: flip})
 		o := &obs{Proto: kind, IDs: idsN(2), Tr: res.Trace, Order: res.Order, BaseMul: res.BaseMul, Extra: map[string]string{}}
 		if res.SetupErr != "" {
 			o.Err = res.SetupErr
@@ -462,6 +481,71 @@ func runOtVole(kind string, xi, l int) func(int64, map[sharing.ID]string) *obs {
 	}
 }
 
+// expandPRG is the SoftSpoken seed expansion recomputed with x/crypto's BLAKE2b XOF (not library code).
+func expandPRG(sid []byte, n, idx int, seed []byte, choice int) []byte {
+	x, err := blake2b.NewXOF(blake2b.OutputLengthUnknown, sid)
+	if err != nil {
+		panic(err)
+	}
+	x.Write(binary.LittleEndian.AppendUint64(nil, uint64(idx)))
+	x.Write(binary.LittleEndian.AppendUint64(nil, uint64(choice)))
+	x.Write(seed)
+	out := make([]byte, n)
+	io.ReadFull(x, out)
+	return out
+}
+
+// runOtExt: the SoftSpoken OT extension on its own; everything but the tapes is fixed.
+func runOtExt(xi, l int) func(int64, map[sharing.ID]string) *obs {
+	var mk func(seed int64, labels map[sharing.ID]string, flip *dotv.Flip) *obs
+	mk = func(seed int64, labels map[sharing.ID]string, flip *dotv.Flip) *obs {
+		res := dotv.RunFull(dotv.Config{Seed: seed, Prop: prop, Labels: labels, Kind: "softspoken-ext", Xi: xi, L: l, Flip: flip})
+		o := &obs{Proto: "softspoken-ext", IDs: idsN(2), Tr: res.Trace, Order: res.Order, BaseMul: res.BaseMul, Extra: map[string]string{}, Derived: map[string][]byte{}}
+		if res.SetupErr != "" {
+			o.Err = res.SetupErr
+			return o
+		}
+		if e := o.allOK(); e != "" {
+			o.Err = e
+			return o
+		}
+		if res.Trace.Outputs[1] == "" || res.Trace.Outputs[2] == "" {
+			o.Err = "no output"
+			return o
+		}
+		// the OT outputs do not (and must not) depend on the sigma mask bits: no joint value here
+		o.Extra["receiver-chosen"] = outField(res.Trace.Outputs[1], "chosen")
+		o.Extra["sender-pads"] = outField(res.Trace.Outputs[2], "pads")
+		// the mask block of x' as the sender can see it: last 16 bytes of u_i ^ PRG(m0_i) ^ PRG(m1_i)
+		if m := o.msg(1, 1, 2); m != nil {
+			for _, i := range []int{0, len(res.M0) - 1} {
+				u, ok := bytesAt(o.decoded(m), "u", fmt.Sprintf("#%d", i))
+				if !ok || len(u) < 16 || i < 0 {
+					continue
+				}
+				t0, t1 := expandPRG(res.Sid, len(u), i, res.M0[i], 0), expandPRG(res.Sid, len(u), i, res.M1[i], 1)
+				mask := make([]byte, 16)
+				for k := range mask {
+					q := len(u) - 16 + k
+					mask[k] = u[q] ^ t0[q] ^ t1[q]
+				}
+				name := "sigma-mask.first"
+				if i > 0 {
+					name = "sigma-mask.last"
+				}
+				o.Derived[name] = mask
+			}
+		}
+		if flip == nil {
+			o.Flipped = func(party sharing.ID, off, n int) *obs {
+				return mk(seed, labels, &dotv.Flip{Party: party, Off: off, N: n})
+			}
+		}
+		return o
+	}
+	return func(seed int64, labels map[sharing.ID]string) *obs { return mk(seed, labels, nil) }
+}
+
 func protocols(tier string) []protoSpec {
 	n, t := 3, 2
 	// the OT-based protocols cost (n-1) base-OT batches per party and run: fewer parties there
@@ -484,6 +568,7 @@ func protocols(tier string) []protoSpec {
 		{Name: "boldyreva-short-basic", N: n, D: t, Family: "boldyreva", Run: runBls(n, t, "short", "basic")},
 		{Name: "lindell17", N: 2, D: 2, Family: "lindell17", Signing: true, Heavy: true, Run: runL17()},
 		{Name: "ot-ecbbot", N: 2, D: 2, Family: "ot", Run: runOtVole("ecbbot", 128, 1)},
+		{Name: "softspoken-ext", N: 2, D: 2, Family: "otext", Run: runOtExt(256, 2)},
 	}
 	if tier == "thorough" {
 		ps = append(ps,
